@@ -331,7 +331,7 @@ fn exact_fit_sweep(seed: u64, variant: u64, base: &str, st: &mut ReplyStats) {
     }
 }
 
-fn run_c07_case(seed: u64, i: u64, base: &str) -> ReplyStats {
+fn run_c07_case(seed: u64, i: u64, base: &str, rt: &tokio::runtime::Runtime) -> ReplyStats {
     let mut st = ReplyStats { findings: vec![], c: Counters::default(), sample: None, hashes: vec![] };
     let mut rng = rng_from(mix3(seed, i, 0xC07));
     let n_members = [0usize, 1, 2, 5, 10, 40][rng.random_range(0..6)];
@@ -347,6 +347,13 @@ fn run_c07_case(seed: u64, i: u64, base: &str) -> ReplyStats {
     };
     let lay = Layout { n_members, keys_per_member, vlen, class, own_keys };
     let mut s = build_sender(&mut rng, &lay, base);
+    // a third of the cases: the members were never heard of again, are evaluated dead and, after more than half the
+    // dead-node grace period (24 h), scheduled for deletion: no reply may carry them, whatever the peer's digest says
+    if i % 3 == 0 && n_members > 0 {
+        s.cc.verif_update_nodes_liveness();
+        rt.block_on(tokio::time::advance(std::time::Duration::from_secs(13 * 3600)));
+        st.c.add("members_scheduled_for_deletion", s.cc.scheduled_for_deletion_nodes().count() as u64);
+    }
     st.sample = Some(json!({"case": i, "members": n_members, "keys_per_member": keys_per_member, "own_keys": own_keys, "value_len": vlen, "payload_class": class}));
     for mode in 0..3u8 {
         let d = random_peer_digest(&mut rng, &s.cc, mode);
@@ -379,7 +386,7 @@ pub fn check_c07(args: &Args) -> Outcome {
             exact_fit_sweep(seed, i, &base, &mut st);
             Some(st)
         } else {
-            Some(run_c07_case(seed, i - nfit, &base))
+            Some(run_c07_case(seed, i - nfit, &base, &rt))
         }
     });
     let done = res.len() as u64;
@@ -427,8 +434,14 @@ pub fn check_c07(args: &Args) -> Outcome {
     if done < n + nfit {
         ev.inconclusive.push(format!("wall-clock watchdog: {} of {} cases not generated", n + nfit - done, n + nfit));
     }
+    // every reply of whole simulated clusters (members crash, are scheduled for deletion and removed there)
+    let e1 = crate::e1::run_e1(args, "C07", &deadline);
+    ev.counters.merge(&e1.stats);
+    ev.distinct.extend(e1.distinct.iter());
+    violations.extend(e1.findings);
     ev.extra.insert("cases".into(), json!(ev.evaluations));
-    ev.evaluations = ev.counters.get("messages_checked") + ev.counters.get("budgeted_deltas");
+    ev.extra.insert("e1_traces".into(), json!(e1.traces));
+    ev.evaluations = ev.counters.get("messages_checked") + ev.counters.get("budgeted_deltas") + ev.counters.get("datagrams_emitted");
     ev.rule = "case = seeded sender state (0-40 members, 0-300 keys, value lengths incl. 16,383..16,385 / 32,768 / 40-65 KB, payload classes constant / english / printable / 7-bit / near-incompressible UTF-8) x 3 peer digests x {SYN-ACK, ACK, 18 budgets}; exact-fit sweeps re-write the last key byte by byte (+-40) around the length where it stops fitting; distinct = distinct emitted byte strings (hash); all are non-trivial (each is a reply computed by the real code and parsed by the independent decoder)".into();
     ev.assumptions = vec!["own digest leaves >= 100 bytes (enforced by the generators)".into(), "zstd treated as a black box; only framing is independently decoded".into()];
     let nothing = ev.counters.get("messages_checked") == 0;
